@@ -263,9 +263,9 @@ pub fn one_line(yaml: &str) -> String {
 
 pub fn run(tier: Tier) -> i32 {
     let mut rep = Report::new("C01", tier);
-    let level = if tier.thorough() { 1 } else { 0 };
-    let (doc_cap, order_cap) = if tier.thorough() { (400, 720) } else { (150, 720) };
-    let specs = gen::universe(level);
+    let level = if tier.thorough() { 2 } else { 1 };
+    let (doc_cap, order_cap) = if tier.thorough() { (800, 720) } else { (300, 720) };
+    let specs = if tier.thorough() { gen::universe(1) } else { gen::universe_quick() };
     let parts: Vec<Stats> = specs
         .par_iter()
         .map(|s| check_spec(s, level, doc_cap, order_cap))
